@@ -58,6 +58,12 @@ CHECKS = {
    note='Trusted: payload shims measuring sys.getsizeof of arguments, SimSource pull counters, sys.settrace call-event counter as logical clock, RLIMIT_AS 6 GB per worker. CPython cannot make a single allocation fail, so memory is monitored, not faulted.',
    technique='deterministic simulation with fault enumeration: instrumented endless/oversize/boundary streams injected at every introspected collection parameter, logical step budgets instead of a watchdog, payload-argument size monitors, tracemalloc, shrinking + replay (with process-history prelude)',
    quick_timeout=900, thorough_timeout=21600),
+ 'C09': dict(
+   category='exploration', design_ref='DESIGN.md 3.4',
+   text='Seeded host histories: 2-6 statements (introspective calls of every library function on mutable sub-collections of the document in every collection-typed position; let/with/unpack/def/-> and host functions writing through yaql_interface / context; 744 expressions harvested from the test suite), 1-3 generated mutable documents, <=12 evaluations mixing input conversion on/off, output conversion on/off and target context = fresh child / host layer itself / persistent child / none; odd-numbered histories abort evaluations at arbitrary points (host stream failing at position p, probe function raising on its n-th call, iterator limit or quota tripping part-way, lazy result abandoned after j items). After EVERY operation: documents deeply equal their snapshots; all contexts of the host chain have the same variables, function sets and exclusive names except $ of the context given to evaluate; converted results alias no host container (identity walk, then mutate-in-place and re-check); the same (statement, document, mode) gives the result of its first fault-free occurrence, also after aborted evaluations.',
+   note='Trusted: snapshot code reading Context._data/_functions/_exclusive_funcs; aliasing only asserted for converted results; random() seeded, now()/localtz() excluded. Cross-run state (caches) is replayed through the process-history prelude.',
+   technique='deterministic simulation of a host evaluation history with injected aborts (failing stream, raising host function, limit/quota trip, abandoned lazy result), deep-snapshot invariants after every step, history-independence oracle, shrinking + replay',
+   quick_timeout=900, thorough_timeout=21600),
 }
 
 
